@@ -62,6 +62,7 @@ def values(thorough):
       ('Req partial', lambda: fx.Req.partial(child=fx.Req.partial(a=1))),
       ('class', lambda: N), ('classes in list', lambda: [N, fx.Typed, int, str]),
       ('function', lambda: module_fn), ('function in dict', lambda: {'f': module_fn, 'g': [len]}),
+      ('lambdas sharing one code object', _lambdas), ('lambdas in dict', lambda: dict(zip('abcd', _lambdas()))),
       ('oneof', lambda: pg.oneof([1, 'a', N(x=pg.oneof([1, 2]))])), ('manyof', lambda: pg.manyof(2, [1, 2, 3], distinct=False, sorted=True)),
       ('floatv', lambda: pg.floatv(0.0, 1.0)), ('hyper in object', lambda: N(x=pg.oneof([1, 2]), items=[pg.floatv(-1.0, 1.0)])),
       ('Field', lambda: pg.typing.Field('a', pg.typing.Int(min_value=0), 'doc')),
@@ -89,7 +90,25 @@ def _dna(d, lit):
 # ---------------------------------------------------------------------------
 # equality (NaN-aware, type-strict)
 # ---------------------------------------------------------------------------
+def _lambdas():
+  """Functions built from ONE code object that differ only in their defaults (a loader must not conflate them)."""
+  def make(n):
+    def scaled(x, n=n, *, off=n * 10):
+      return x * n + off
+    return scaled
+  return [lambda x, k=k: x * k for k in (2, 3)] + [make(5), make(7)]
+
+
 def same(a, b):
+  import types
+  if isinstance(a, types.FunctionType) and isinstance(b, types.FunctionType) and a is not b:
+    if (a.__code__.co_code != b.__code__.co_code or a.__code__.co_consts != b.__code__.co_consts
+        or a.__defaults__ != b.__defaults__ or a.__kwdefaults__ != b.__kwdefaults__ or a.__name__ != b.__name__):
+      return False
+    try:
+      return a(4) == b(4)
+    except TypeError:
+      return True
   # from_json documents that plain lists / dicts are loaded as their symbolic counterparts
   if isinstance(a, list) and isinstance(b, list) and not isinstance(a, tuple):
     pass
@@ -145,6 +164,8 @@ def value_item(rec, item):
       ('deepcopy', copy.deepcopy),
       ('pickle', lambda x: pickle.loads(pickle.dumps(x))),
   ]
+  if k in ('lambdas',):
+    routes = [r for r in routes if r[0] != 'pickle']       # Python itself cannot pickle a lambda
   if isinstance(v, pg.Symbolic):
     routes.append(('clone', lambda x: x.clone(deep=True)))
   for route, fn in routes:
@@ -168,7 +189,7 @@ def value_item(rec, item):
       if st.is_container(w):
         for clause, text in st.check_topology([w]):
           rec.viol(f'loaded-value-malformed:{clause}/{route}/{k}', f'{label}: {text}', dict(tr, route=route)); ok = False
-    if route in ('json', 'json_str'):
+    if route in ('json', 'json_str') and k != 'lambdas':     # a restored lambda is re-homed (its recorded name changes); only behaviour is claimed
       try:
         if route == 'json' and repr(pg.to_json(w)) != repr(pg.to_json(mk())):
           rec.viol(f'encoding-not-fixpoint/{route}/{k}', f'{label}: to_json(from_json(to_json(v))) differs', dict(tr, route=route)); ok = False
@@ -244,6 +265,8 @@ class FileSpace(statespace.Space):
       for v in ('long', 'short', 'uni'):
         ops.append(('append', p, v))
         ops.append(('rewrite', p, v))
+      ops.append(('rewrite', p, None))       # a writer that adds nothing still replaces the sequence by an empty one
+      ops.append(('append', p, None))        # an appender that adds nothing leaves it as it is (creating it if absent)
     return ops
 
   def _recpath(self, w, p):
@@ -261,13 +284,14 @@ class FileSpace(statespace.Space):
         pass
       elif k in ('append', 'rewrite'):
         path = self._recpath(w, op[1])
-        v = FILE_VALUES[op[2]]()
+        added = [] if op[2] is None else [FILE_VALUES[op[2]]()]
         with pg.io.open_sequence(path, 'a' if k == 'append' else 'w', serializer=pg.to_json_str, deserializer=pg.from_json_str) as seq:
-          seq.add(v)
+          for v in added:
+            seq.add(v)
         if k == 'append':
-          w['recs'].setdefault(op[1], []).append(v)
+          w['recs'].setdefault(op[1], []).extend(added)
         else:
-          w['recs'][op[1]] = [v]
+          w['recs'][op[1]] = list(added)
     except Exception as e:  # pylint: disable=broad-except
       rec.viol(f'file-op-raises:{type(e).__name__}/{self.fs}/{k}', f'{op!r} after {trace and trace.get("hist")}: {e}', trace)
       return True
